@@ -19,6 +19,7 @@ import (
 	"strconv"
 	"strings"
 	"sync"
+	"sync/atomic"
 	"syscall"
 	"time"
 
@@ -323,12 +324,16 @@ func runPass(ps pass, p *core.Prop, tier string, seed int64, active []string) []
 	var mu sync.Mutex
 	var crashes []crash
 	var wg sync.WaitGroup
+	var deaths atomic.Int32
 	for w := 0; w < ps.workers; w++ {
 		wg.Add(1)
 		go func(w int) {
 			defer wg.Done()
 			inc, rf, ri := 0, 0, 0
-			for inc < 25 {
+			// A worker that died is restarted after the case that killed it, so that one defect does not
+			// hide the rest; on a tree where very many cases die the exploration is cut short (it has
+			// already failed): at most 6 restarts per worker and 24 deaths per pass.
+			for inc < 6 && int(deaths.Load()) < 24 {
 				args := []string{"worker", "-prop", p.ID, "-tier", tier, "-seed", strconv.FormatInt(seed, 10), "-w", strconv.Itoa(w), "-W", strconv.Itoa(ps.workers),
 					"-mode", modeFor(w), "-dir", ps.dir, "-active", strings.Join(active, ","), "-inc", strconv.Itoa(inc), "-resume-fam", strconv.Itoa(rf), "-resume-idx", strconv.Itoa(ri)}
 				st, tail := spawn(ps, args, fmt.Sprintf("%s/worker-%d.%d.log", ps.dir, w, inc), 0)
@@ -357,6 +362,7 @@ func runPass(ps pass, p *core.Prop, tier string, seed int64, active []string) []
 				mu.Lock()
 				crashes = append(crashes, c)
 				mu.Unlock()
+				deaths.Add(1)
 				inc, rf, ri = inc+1, fam, idx
 			}
 		}(w)
